@@ -30,6 +30,9 @@ fn plan(tier: Tier) -> Vec<Workload> {
         // many failing lines in front of a valid one: what the analyzer says about a line must not depend on how
         // many other lines failed before it
         Workload::new("accumulate", tier.pick(4_000, 60_000)),
+        // tiny programs around two spots where the analyzer and the interpreter each have their own code: jump targets
+        // written with a fraction, and files that define a line number more than once
+        Workload::new("small", tier.pick(6_000, 100_000)),
     ]
 }
 
@@ -178,6 +181,69 @@ fn run_case(ctx: &Ctx, index: u64, rep: &mut Report) {
                 }
             }
         }
+        "small" => {
+            let mut lines: Vec<String> = vec![];
+            let frac = rng.s(&["", ".5", ".999", ".0", ".25"]);
+            match rng.below(4) {
+                0 => {
+                    // jumps whose target is written with a fraction (the interpreter goes to the whole part)
+                    let jump = rng.s(&["GOTO", "GOSUB"]);
+                    lines.push(format!("10 {} 30{}", jump, frac));
+                    lines.push("20 END".into());
+                    lines.push(format!("30 PRINT 1 : {}", if jump == "GOSUB" { "RETURN" } else { "END" }));
+                }
+                1 => {
+                    lines.push(format!("10 IF 1 THEN 30{} ELSE 40", frac));
+                    lines.push("20 END".into());
+                    lines.push("30 PRINT 3 : END".into());
+                    lines.push("40 PRINT 4".into());
+                }
+                2 => {
+                    lines.push(format!("10 X = 1 : IF X THEN GOTO 25{}", frac));
+                    lines.push("25 PRINT X".into());
+                }
+                _ => {
+                    // a line number defined twice: the LAST definition is the program (and the one to analyse)
+                    let good = rng.s(&["X = 1", "PRINT X", "A$ = \"s\"", "FOR I = 1 TO 2 : NEXT I"]);
+                    let bad = rng.s(&["X = \"A\" : PRINT X", "PRINT 1 +", "GOTO 99", "A$ = 5", "PRINT (1"]);
+                    lines.push("10 X = 1".into());
+                    let (first, second) = if rng.coin() { (good, bad) } else { (bad, good) };
+                    lines.push(format!("20 {}", first));
+                    if rng.coin() {
+                        lines.push("30 PRINT X".into());
+                    }
+                    lines.push(format!("20 {}", second));
+                }
+            }
+            let text = lines.join("\n");
+            let (nerr, _) = match analysis_errors(&text) {
+                Ok(x) => x,
+                Err(m) => {
+                    ctx.violation(rep, "C05", "analyzer-panic", index, format!("analyzer panicked: {}", m), json!({"file": lines}));
+                    return;
+                }
+            };
+            rep.count("small.files");
+            if nerr > 0 {
+                rep.count("small.rejected");
+                return;
+            }
+            rep.count("small.accepted");
+            let mut sess = Session::new();
+            sess.keep_log = false;
+            for l in &lines {
+                sess.call(Op::Line(l.clone()));
+            }
+            let out = sess.run_line("RUN", 200);
+            if let Res::Err(e) = &out.res {
+                if covered_kind(e.kind) {
+                    ctx.violation(rep, "C06", &format!("accepted-program-fails:{}", e.kind), index,
+                        format!("the analyzer reports no error for {:?}, but RUN fails with {}", lines, e.display), json!({"file": lines, "runtime": e.display}));
+                    return;
+                }
+            }
+            rep.nontrivial(hash_str(&text));
+        }
         "programs" => {
             let k = 1 + rng.usize(4);
             let opts = GenOpts {
@@ -265,6 +331,7 @@ fn finalize(_tier: Tier, rep: &mut Report) -> Finalize {
     Finalize {
         rule: "lines: G-stmt lines of 1-3 straight-line statements (assignments to scalars and cells with/without $, PRINT, DIM, FOR..TO..STEP, READ, RESTORE, DATA, REM; operands of every kind at every operator tier incl. chained comparisons, AND/OR/NOT over strings, unary + and -), 45% with one or two typing or syntax mistakes (incl. an ELSE that belongs to no IF and an ELSE after a multi-statement THEN clause); a tenth of the lines wrap a statement in an IF with a constant condition (judged in the first direction only); `10 <line>` is analysed and, independently, run on a fresh interpreter (with a DATA line for READ): analyzer error => the run must fail; analyzer clean => the run must not fail with SYNTAX / TYPE MISMATCH / UNDEF'D STATEMENT. \
                accumulate: 5-94 lines that fail analysis inside nested expressions followed by one valid line: the valid line must not be rejected and the nesting counter handed to the interpreter must be 0. A twelfth of the `lines` cases put the statements behind a STOP (executed by CONT) or into the ELSE clause of `IF 0 THEN END`. \
+               small: 2-4 line programs with jump targets written with a fraction (GOTO 30.5, THEN 30.999) and files that define a line number twice (the last definition counts): analysis clean => RUN must not fail with one of the three kinds. \
                programs: G-prog programs whose IF conditions mostly test Z1..Zk (k <= 4) read by INPUT on the first line, with typing mistakes injected at 4% of assignments, half of the files with their lines in shuffled order; analysis-clean programs are executed under all 2^k reply vectors and must never end in one of the three error kinds. \
                Non-trivial: a line that mixes string and numeric operands; a program with >= 2 forced condition variables. Distinct by hash of the text.".into(),
         floors: vec![
@@ -273,6 +340,8 @@ fn finalize(_tier: Tier, rep: &mut Report) -> Finalize {
             ("programs.accepted_by_analyzer".into(), 5_000),
             ("programs.executions".into(), 30_000),
             ("accumulate.files".into(), 3_000),
+            ("small.accepted".into(), 1_500),
+            ("small.rejected".into(), 500),
             ("lines.continued_after_stop".into(), 2_000),
             ("distinct_nontrivial".into(), 50_000),
         ],
